@@ -77,6 +77,16 @@ CHECKS.update({
               'Truncation/rounding at bit N on the general path, from_f64 (float loop) and quire->PxE2 NOT decided. 13 genuine defects listed as known findings.'), design='4/C14'),
 })
 
+CHECKS.update({
+    'C11': dict(level='other', technique='literal-table agreement + abstract interpretation per cell against a 400-bit oracle with margin test',
+        text=('P8E0::exp and P8E0::ln decided for all 256 inputs (table index term, bounds, every entry vs the correctly rounded value); the ten P16E1 functions decided on every cell in front of '
+              'the polynomial kernels (NaR, domain errors, exact zeros, saturation, rounds-to-1 cut-offs; thorough tier checks every point of each decided cell). The fixed-point kernels are NOT decided.'),
+        design='4/C11'),
+    'C15': dict(level='other', technique='abstract interpretation (constant / interval propagation through the SLEEF-style bodies) on NaR and out-of-domain cells',
+        text=('NaR input gives NaR and out-of-domain arguments (ln/log2 of x<=0, asin/acos of |x|>1) give NaR for the 16 P32E2 functions. The stated ULP error bounds are NOT decided (no claim).'),
+        design='4/C15'),
+})
+
 NOT_APPLICABLE = {
 }
 
